@@ -231,9 +231,11 @@ func Install(s *Schedule, rec *Recorder) {
 			}
 		}
 		if rec != nil {
+			// hash the resulting key order (not the indices, which refer to the
+			// native order the keys happened to be collected in)
 			h := tape.Mix(rec.Hash, site)
 			for _, p := range perm {
-				h = tape.MixN(h, uint64(p))
+				h = tape.Mix(h, ks[p])
 			}
 			rec.Hash = h
 		}
